@@ -15,6 +15,10 @@ import (
 type methodCache[R CacheableResult] struct {
 	mu           sync.Mutex
 	cachedValues map[string]*cacheEntry[R]
+	// generation counts invalidations. A result requested before an
+	// invalidation may predate the change that caused it and must not be
+	// cached afterwards; see [methodCache.putIfCurrent].
+	generation uint64
 }
 
 type cacheEntry[R CacheableResult] struct {
@@ -45,6 +49,10 @@ func (mc *methodCache[R]) get(key string) (R, bool) {
 func (mc *methodCache[R]) put(key string, result R) {
 	mc.mu.Lock()
 	defer mc.mu.Unlock()
+	mc.putLocked(key, result)
+}
+
+func (mc *methodCache[R]) putLocked(key string, result R) {
 	if mc.cachedValues == nil {
 		mc.cachedValues = make(map[string]*cacheEntry[R])
 	}
@@ -54,15 +62,36 @@ func (mc *methodCache[R]) put(key string, result R) {
 	}
 }
 
+// gen returns the current generation of the cache, to be obtained before a
+// request is sent and passed to [methodCache.putIfCurrent] with its result.
+func (mc *methodCache[R]) gen() uint64 {
+	mc.mu.Lock()
+	defer mc.mu.Unlock()
+	return mc.generation
+}
+
+// putIfCurrent is like put, but drops the result if the cache has been
+// invalidated since gen was obtained: the response may have been produced
+// before the change announced by that invalidation.
+func (mc *methodCache[R]) putIfCurrent(key string, result R, gen uint64) {
+	mc.mu.Lock()
+	defer mc.mu.Unlock()
+	if mc.generation == gen {
+		mc.putLocked(key, result)
+	}
+}
+
 func (mc *methodCache[R]) invalidate() {
 	mc.mu.Lock()
 	defer mc.mu.Unlock()
+	mc.generation++
 	clear(mc.cachedValues)
 }
 
 func (mc *methodCache[R]) invalidateKey(key string) {
 	mc.mu.Lock()
 	defer mc.mu.Unlock()
+	mc.generation++
 	delete(mc.cachedValues, key)
 }
 
